@@ -14,9 +14,10 @@ TRUSTED_BASE = [
     "hand-written model C13_Model.v tied to /repo by the differential run of this check (Go harness harness/c13, overlay exports)",
     "modelled not verified: hash/fnv, sync.Map, client-go leaderelection (only its three callbacks are driven), local store",
 ]
+HARNESS_CHUNK = 400
 ASSUMPTIONS = [
     "leadership changes reach the limiter only through the elector callbacks OnNewLeader/OnStartedLeading/OnStoppedLeading",
-    "history cases use the local store; the API-backed store's shard filter is covered by the C19 model theorem listed here",
+    "history cases use the local store, plus a few with the API-backed store in which every shard is gained once (so Load sees an empty API); what the API-backed store persists and reloads is C19's subject",
 ]
 
 NAMES = [b"a", b"b", b"c", b"kube-1", b"kube-2", b"prod.example.com", b"x" * 40, b"", b"A", b"\xff\x00z", b"a.b", b"a.b.c"]
@@ -79,6 +80,32 @@ def gen_hist(rng):
     return {"kind": "hist", "id": B(b"me"), "n": n, "ops": ops}
 
 
+def gen_k8s_hist(rng):
+    """API-backed store (periodic mode): every shard is gained at most once, at the beginning, so that
+    Load() always sees an empty API (the persisted contents are C19's subject); leadership is then lost
+    in every way, one of them during an API outage that makes the store's first flush fail."""
+    n = rng.choice([1, 2, 3])
+    ups = rng.sample(NAMES[:7], rng.randint(2, 3))
+    ops = [{"op": "start", "shard": sh} for sh in range(n)]
+    for u in ups:
+        ops.append({"op": "set", "u": B(u)})
+    for _ in range(rng.randint(2, 5)):
+        ops.append({"op": "update", "u": B(rng.choice(ups)), "i": B(rng.choice(INST))})
+    flaky = rng.below(n)
+    for sh in rng.shuffle(list(range(n))):
+        k = rng.below(3)
+        if sh == flaky:
+            ops.append({"op": "stopflaky", "shard": sh})
+        elif k == 0:
+            ops.append({"op": "stop", "shard": sh})
+        elif k == 1:
+            ops.append({"op": "newleader", "shard": sh, "id": B(b"other")})
+        ops.append({"op": rng.choice(["update", "acquire"]), "u": B(rng.choice(ups)), "i": B(rng.choice(INST))})
+    ops.append({"op": "check"})
+    ops.append({"op": "update", "u": B(rng.choice(ups)), "i": B(rng.choice(INST))})
+    return {"kind": "hist", "id": B(b"me"), "n": n, "ops": ops, "store": "k8s"}
+
+
 def generate(rng, tier, scale=1):
     nh, nk = (2000, 150) if tier == "quick" else (30000, 2000)
     nh, nk = nh * scale, nk * scale
@@ -94,6 +121,8 @@ def generate(rng, tier, scale=1):
         cs.append({"kind": "hash", "name": B(rand_name(rng)), "n": n})
     for _ in range(nk):
         cs.append(gen_hist(rng))
+    for _ in range((4 if tier == "quick" else 30) * scale):   # each costs ~2 s (the limiter's own retry sleep)
+        cs.append(gen_k8s_hist(rng))
     return cs
 
 
@@ -109,6 +138,8 @@ def coq_op(o):
         return "(OStartLeading %s)" % cZ(o["shard"])
     if k == "stop":
         return "(OStopLeading %s)" % cZ(o["shard"])
+    if k == "stopflaky":
+        return "(OStopFlaky %s)" % cZ(o["shard"])
     if k == "check":
         return "OLeaderCheck"
     if k == "set":
@@ -159,7 +190,7 @@ def stats(case, obs):
     if case["kind"] == "hash":
         n = case["n"]
         return ["hash:n=%s" % (n if n in (0, 1, 2, 3, 7, 16, 64, 2 ** 31) else ("big" if n > 64 else "neg"))]
-    labs = ["hist:len<=%d" % (10 * ((len(case["ops"]) + 9) // 10))]
+    labs = ["hist:len<=%d" % (10 * ((len(case["ops"]) + 9) // 10)), "store:%s" % case.get("store", "local")]
     for o, s in zip(case["ops"], obs.get("steps", [])):
         labs.append("op:%s->%s" % (o["op"], s["res"]))
     return labs
